@@ -35,7 +35,7 @@ def ids(term):
 
 
 def spec_of(c):
-    return {k: c[k] for k in ("id", "kind", "type", "t", "n", "vals", "subs", "mutate", "corrupt", "cancel")}
+    return {k: c[k] for k in ("id", "kind", "type", "t", "n", "vals", "subs", "mutate", "corrupt", "cancel", "epoch", "seq")}
 
 
 def main():
@@ -45,12 +45,13 @@ def main():
         "signing root (domain, epoch, message root) is an injective function of the signed content (hypothesis of C09_published_valid, not an axiom)",
         "N1: 'repeat a share => nothing published' is proved in the form the code has: fewer than t DISTINCT share indices => nothing; with surplus partials a repeated share index is overwritten (last wins) and a valid object is still published (C09_repeat_with_surplus_still_valid)",
         "the context passed to Aggregate is not consulted by Aggregate itself; the harness wraps the injected verifier to cancel the caller's context at scripted moments and calls the real verifier with a context detached from that cancellation (so the beacon-mock client is not affected); the model's answer is independent of cancellation",
+        "aggregator and verifier keep no state between calls: the label carries the call's (type, epoch) and the earlier calls of the same aggregator/verifier, and the model ignores them; sequences with one long-lived sigagg.New + sigagg.NewVerifier check this history-independence across fork boundaries",
         "threshold t >= 1 (sigagg.New refuses t <= 0); t = 1 is exercised only on valid inputs because with a single key all 'shares' coincide",
         "phase0/altair proposals are refused by the verifier ('unsupported version'): fail-closed, not generated",
         "the harness's signing root is computed from the raw eth2 objects (domain constants, epoch, hash-tree-root) independently of core/eth2signeddata.go and eth2util/signing; SSZ hashing, the beacon mock's domain computation and herumi BLS are trusted",
     ]
     R.proofs()
-    n = 6000 if R.thorough else 1300
+    n = 6000 if R.thorough else 1700
     rc, out, od = vp.go_harness("sigagg", env_extra={"VERIF_N": n})
     if rc != 0:
         R.broke("correspondence:harness sigagg failed to run", out[-3000:])
@@ -64,13 +65,15 @@ def main():
     R.coverage["distinct_nontrivial"] = len(seen)
     R.coverage["rule"] = ("one evaluation = one call of sigagg.Aggregate on the real component (sigagg.New + sigagg.NewVerifier over beaconmock) with real tbls shares; "
                           "non-trivial = call whose batch contains at least one corrupted/irregular partial (wrong share's signature, wrong/out-of-range/zero/negative share index, other message, other domain, other fork, "
-                          "other validator's share, zero/truncated/random/infinity/foreign-key signature, bad length, too few, repeats with and without surplus, payload taken from a non-contributing partial, bare-signature objects, attestation ValidatorIndex variants), or whose context is cancelled before the call / right after the k-th verifier invocation (multi-validator batches with 0..2 bad validators at every placement, each repeated because Go's map order is random); "
+                          "other validator's share, zero/truncated/random/infinity/foreign-key signature, bad length, too few, repeats with and without surplus, payload taken from a non-contributing partial, bare-signature objects, attestation ValidatorIndex variants), or whose context is cancelled before the call / right after the k-th verifier invocation (multi-validator batches with 0..2 bad validators at every placement, each repeated because Go's map order is random), or that is a call of a sequence served by ONE long-lived aggregator and verifier (same duty type at epochs in different forks of the beacon mock, both orders, signed for the own epoch's domain and with the other fork's domain); "
                           "distinct by hash of (type, abstract label)")
     dist = collections.Counter()
     for c in cs:
         dist["kind:" + c["kind"]] += 1
         dist["outcome:" + (c["err"] or "published")] += 1
         dist["validators:%d" % len(c["vals"] or [])] += 1
+        if c.get("seq"):
+            dist["sequence_position:%d" % c.get("pos", 0)] += 1
         if c.get("cancel"):
             dist["ctx_cancel:%s" % ("before_call" if c["cancel"] == 1 else "after_verify_%d" % (c["cancel"] - 1))] += 1
         for k in c.get("corrupt") or []:
@@ -80,6 +83,16 @@ def main():
                                         "thresholds": dict(sorted(collections.Counter("%d-of-%d" % (c["t"], c["n"]) for c in cs).items()))}
     R.add_samples([{"spec": spec_of(c), "label": c["label"], "err": c["err_text"]} for c in cs if c.get("nontrivial")][:2])
     byid = {c["id"]: c for c in cs}
+
+    def replay_of(c):
+        """A call of a sequence is replayed with all earlier calls of its sequence (same aggregator and verifier)."""
+        rp = dict(spec_of(c), observed={"err": c["err_text"], "calls": c["calls"]}, label=c["label"],
+                  how="./check C09 --replay <this file> rebuilds the batch(es) from the spec(s) and calls sigagg.Aggregate in /repo")
+        if c.get("seq"):
+            rp["seq_specs"] = [spec_of(x) for x in allcs if x.get("seq") == c["seq"] and x["id"] <= c["id"]]
+            rp["previous_calls"] = c.get("prev")
+        return rp
+    allcs = list(cs)
     unknown = [c for c in cs if c["err"] == "EUnknown"]
     for c in unknown[:3]:
         R.broke("correspondence:Aggregate returned an error the model has no class for: %s" % c["err_text"], json.dumps(spec_of(c)))
@@ -96,13 +109,12 @@ def main():
         for cid in hits:
             c = byid[cid]
             R.violation("published-invalid", "sigagg handed subscribers a set that violates C09 (type %s, corruptions %s, observed calls %s)" % (c["type"], c["corrupt"], c["calls"]),
-                        dict(spec_of(c), observed={"err": c["err_text"], "calls": c["calls"]}, label=c["label"],
-                             how="./check C09 --replay <this file> rebuilds the batch from the spec and calls sigagg.Aggregate in /repo"))
+                        replay_of(c))
         for cid in rej:
             if cid in hits:
                 continue
             c = byid[cid]
             R.broke("correspondence:SigAgg model does not allow observed outcome of case %d (%s, corruptions %s): err=%r calls=%s" % (cid, c["type"], c["corrupt"], c["err_text"], c["calls"]),
-                    json.dumps({"spec": spec_of(c), "label": c["label"]}))
+                    json.dumps({"spec": spec_of(c), "label": c["label"], "previous_calls": c.get("prev")}))
     R.coverage["traces_validated_against_impl"] = len(cs)
     R.finish()
